@@ -35,6 +35,7 @@ let statics = [|
   z ("-1" ^ String.make 176 '0' ^ "0000000000000001") |]
 let static k = statics.(if k > 6 then 6 else k)
 
+let huge_bits = 1 lsl 44   (* bit counts from here on ask for more than 2^40 bytes *)
 exception Pre
 exception Perr
 exception Pan of string
@@ -131,6 +132,11 @@ let spec_step (v : Zar.t array) (t : string array) : string * int =
           if Zar.sign v.(b) = 0 then raise (Pan "DivideBy0");
           let q = Zar.div v.(a) v.(b) and r = Zar.rem v.(a) v.(b) in
           v.(d) <- q; v.(e) <- r; d
+      | "shl" when s 4 >= huge_bits && Zar.sign v.(s 3) > 0 ->
+          let form = t.(1) and a = s 3 in
+          if form <> "r" then v.(a) <- Zar.zero;
+          raise (Pan "OOM")
+      | ("shl" | "ishl") when s 4 >= huge_bits && Zar.sign v.(s 3) = 0 -> v.(s 2) <- Zar.zero; s 2
       | "shl" | "shr" ->
           let form = t.(1) and d = s 2 and a = s 3 and n = s 4 in
           nonneg [ a ];
@@ -142,6 +148,11 @@ let spec_step (v : Zar.t array) (t : string array) : string * int =
           let x = v.(a) in
           if form = "v" then v.(a) <- Zar.zero;
           v.(d) <- (if t.(0) = "ishl" then Zar.shift_left x n else Zar.shift_right x n); d
+      | "setbit" when s 2 >= huge_bits ->
+          (* a growth no allocator can satisfy: the operation must panic (out of memory), the value it was given is dropped *)
+          let d = s 1 in
+          nonneg [ d ];
+          v.(d) <- Zar.zero; raise (Pan "OOM")
       | "setbit" | "clrbit" | "chb" | "npow2" ->
           let d = s 1 and n = s 2 in
           nonneg [ d ];
@@ -378,6 +389,8 @@ let model_ops (v : Zar.t array) (t : string array) : op3 list option =
     | "rv" -> if a <> b then [ OSBit (f, d, ByRef na, ByVal nb) ] else o1 [ OClone (t4, ByRef nb) ] @ [ OSBit (f, d, ByRef t4, ByVal nb) ] @ o1 [ ODrop t4 ]
     | _ -> [ OSBit (f, d, ByRef na, ByRef nb) ] in
   match t.(0) with
+  | "setbit" when s 2 >= huge_bits -> if nonneg [ s 1 ] then Some [ OGrowFail (n 1, zi (s 2)) ] else Some []
+  | ("shl" | "ishl") when s 4 >= huge_bits -> if Zar.sign v.(s 3) = 0 && t.(0) = "ishl" then Some [ OIShl (n 2, opnd (t.(1) = "v") (s 3), zi (s 4)) ] else None
   | "sqrt" -> if nonneg [ s 2 ] then Some [ OSqrt (n 1, n 2) ] else Some []
   | "isqrt" -> Some [ OSqrt (n 1, n 2) ]
   | "sqrtrem" -> if s 1 = s 2 || not (nonneg [ s 3 ]) then Some [] else Some [ OSqrtRem (n 1, n 2, n 3) ]
@@ -483,6 +496,7 @@ let judge op args got =
         (* 1. outcome and value *)
         let out_ok =
           if want_out = "pGCD00" then String.length outcome > 30 && String.sub outcome 0 30 = "pUndocumented:thegreatestcommo"
+          else if want_out = "pOOM" then String.length outcome > 1 && outcome.[0] = 'p'   (* any panic; the ledger and the flags decide *)
           else outcome = want_out in
         if not out_ok then bad i (Printf.sprintf "outcome %s, specified %s" outcome want_out);
         if d >= 0 && dval <> hx v.(d) then bad i (Printf.sprintf "value %s, specified %s" dval (hx v.(d)));
